@@ -1,7 +1,7 @@
 """C16 - scanners and matchers are total and report only well-formed ranges.
 
 Strings.tla enumerates every string over the HTML and the CSS punctuation alphabets up to the bound (and simulates longer
-ones); one-character mutations of valid documents are added.  For every string and every position from -1 to len+1 the real
+ones), Fragments.tla every sequence of document fragments up to its bound; one-character mutations of valid documents are added.  For every string and every position from -1 to len+1 the real
 html/css scan, match, balanced_outward, balanced_inward, attributes and split_value are called; every result (or raised
 exception) is recorded and validated by Trace_ScanMonitor.tla.
 """
@@ -9,8 +9,13 @@ import zlib
 
 import common
 
-HTML_ALPHA = {"<", ">", "/", "=", "DQ", "'", "BS", "!", "-", "?", "[", "]", "a", " "}
-CSS_ALPHA = {"{", "}", ":", ";", "(", ")", "DQ", "'", "BS", "/", "*", "a", " "}
+HTML_ALPHA = {"<", ">", "/", "=", "DQ", "'", "BS", "!", "-", "?", "[", "]", "a", " ", "NL"}
+CSS_ALPHA = {"{", "}", ":", ";", "(", ")", "DQ", "'", "BS", "/", "*", "a", " ", "CR"}
+# document fragments for Fragments.tla: tags of ordinary, void and special elements (also stray closing tags), comment / CDATA
+# delimiters, attribute shapes; rule / declaration / comment / string pieces
+FRAG_H = {"<a>", "</a>", "<br>", "</br>", "<p k=l m>", "<img a=b/>", "<!-- ", "-->", "<script>", "</script>", "t ", "<", ">", "<b c=DQd>eDQ>", "</b>",
+          "<![CDATA[", "]]>", "NL"}
+FRAG_S = {"a{", "}", "b:c;", "d:e", "/*", "*/", "DQ", "'", "BS", "CR", "(", ")", ";", "@m (x:y){", " ", "NL"}
 HTML_DOCS = ['<a><b c="d>e"></b></a>', '<p k=l m><br><img a=b></p>', '<a x=\'>\' {y}><!-- <a> --></a>', '<style>a>b{}</style><p t={a>b}/>',
              '<b *ng="v" #ref><![CDATA[<b>]]></b>', '<script>if(a<b)"</p>"</script><?pi <p> ?>',
              '<style>a{}</style><style>b{}</style>', '<script src="a"></script><p>t</p><script>x</script>',
@@ -150,12 +155,25 @@ def run(out):
              ('html-simulated', 'html', dict(constants={'Alphabet': HTML_ALPHA, 'MaxLen': 12}, simulate=3 if quick else 40, depth=12, seed=out.seed)),
              ('css-exhaustive', 'css', dict(constants={'Alphabet': CSS_ALPHA, 'MaxLen': 3 if quick else 4})),
              ('css-simulated', 'css', dict(constants={'Alphabet': CSS_ALPHA, 'MaxLen': 12}, simulate=3 if quick else 40, depth=12, seed=out.seed + 1))]
+    insts += [('html-fragments', 'html', dict(module='Fragments', constants={'Frags': FRAG_H, 'MaxFrag': 3 if quick else 4})),
+              ('css-fragments', 'css', dict(module='Fragments', constants={'Frags': FRAG_S, 'MaxFrag': 3 if quick else 4}))]
     work = []
-    for name, lang, kw in insts:
-        r = common.run_tlc('Strings', timeout=3000, heap='12g', **kw)
+    from concurrent.futures import ThreadPoolExecutor
+
+    def gen(inst):
+        kw = dict(inst[2])
+        return common.run_tlc(kw.pop('module', 'Strings'), timeout=3000, heap='6g', workers=6, **kw)
+    with ThreadPoolExecutor(4) as ex:           # the generators are independent TLC runs
+        results = list(ex.map(gen, insts))
+    for (name, lang, kw), r in zip(insts, results):
         strings = sorted(set(v['s'] for v in r.vectors()))
+        r.tagged = {}
         if r.mode == 'simulate':
             strings = common.sample(strings, 1500 if quick else 20000, out.seed, key=str)
+        elif quick and name == 'html-fragments':
+            # quick tier: all sequences of one and two fragments, a deterministic sample of those of three
+            short = [x for x in strings if len(x) <= 12]
+            strings = sorted(set(short) | set(common.sample([x for x in strings if len(x) > 12], 700, out.seed, key=str)))
         if r.mode == 'bfs':
             out.exhaustive = r.exhaustive if out.exhaustive is None else (out.exhaustive and r.exhaustive)
         out.add_tlc(name + '-generator', r, strings=len(strings))
@@ -168,33 +186,39 @@ def run(out):
             ms.update(_prefixes(d))
         work.append(('document-mutations-' + lang, lang, sorted(ms)))
     tid = 0
+    alltraces = []
     for name, lang, strings in work:
         items = []
         for s in strings:
             tid += 1
             items.append((tid, s, lang))
         traces = common.pool_map(_chunk, items, chunk=400)
-        slim = [{'tid': t['tid'], 'src': t['src'], 'calls': [{k: c[k] for k in ('fn', 'pos', 'exc', 'r', 'names', 'kinds', 'dl', 'm')} for c in t['calls']]}
-                for t in traces]
-        verdicts, r2 = common.validate_traces('Trace_ScanMonitor', slim, heap='16g')
-        ncalls = sum(len(t['calls']) for t in traces)
-        out.add_tlc(name + '-trace-validation', r2, traces=len(traces), calls=ncalls)
-        out.traces += len(traces)
-        out.evaluations += ncalls
-        by = {t['tid']: t for t in traces}
         for t in traces:
-            if t['calls'][0]['r']:
-                out.distinct.add((t['src'], lang))
-        for k, v in verdicts.items():
-            if v[0] == 'REJECT':
-                t = by[k]
-                c = t['calls'][v[1] - 1]
-                out.violation('%s: %s' % (c['fn'], v[2]), {'source': t['src'], 'fn': c['fn'], 'pos': c['pos'], 'ranges': c['r'],
-                                                          'delimiters': c['dl'], 'names': c['names'], 'exception': c.get('exception'),
-                                                          'site': list(c['site']) if c.get('site') else None})
+            t['lang'] = lang
+        out.parts.append({'instance': name + '-recorded', 'traces': len(traces), 'calls': sum(len(t['calls']) for t in traces)})
+        alltraces.extend(traces)
         sm = sorted(traces, key=lambda t: zlib.crc32(t['src'].encode()))
         for t in sm[:1]:
             out.sample({'source': t['src'], 'calls': [[c['fn'], c['pos'], c['r']] for c in t['calls'][:4]]})
+    # one validation run over all recorded traces (batched by validate_traces)
+    slim = [{'tid': t['tid'], 'src': t['src'], 'calls': [{k: c[k] for k in ('fn', 'pos', 'exc', 'r', 'names', 'kinds', 'dl', 'm')} for c in t['calls']]}
+            for t in alltraces]
+    verdicts, r2 = common.validate_traces('Trace_ScanMonitor', slim, heap='5g', batch_events=110000, parallel=4)
+    ncalls = sum(len(t['calls']) for t in alltraces)
+    out.add_tlc('trace-validation', r2, traces=len(alltraces), calls=ncalls)
+    out.traces += len(alltraces)
+    out.evaluations += ncalls
+    by = {t['tid']: t for t in alltraces}
+    for t in alltraces:
+        if t['calls'][0]['r']:
+            out.distinct.add((t['src'], t['lang']))
+    for k, v in verdicts.items():
+        if v[0] == 'REJECT':
+            t = by[k]
+            c = t['calls'][v[1] - 1]
+            out.violation('%s: %s' % (c['fn'], v[2]), {'source': t['src'], 'fn': c['fn'], 'pos': c['pos'], 'ranges': c['r'],
+                                                      'delimiters': c['dl'], 'names': c['names'], 'exception': c.get('exception'),
+                                                      'site': list(c['site']) if c.get('site') else None})
 
 
 def replay(case):
